@@ -1728,6 +1728,9 @@ pub struct Layout {
     pub multibyte: u8,
     /// per module
     pub crlf: Vec<bool>,
+    /// about a third of the line ends become a lone '\r' (before the CRLF conversion, so that
+    /// "\r", "\r\n" and "\n" can meet in one module)
+    pub lone_cr: bool,
     pub comments: bool,
     /// 0: seeded mixture, 1: the whole module on one (very long) line, 2: one token per line
     pub shape: u8,
@@ -1806,6 +1809,16 @@ pub fn render(ast: &ProgramAst, layout: &Layout) -> Vec<RMod> {
             while text.ends_with('\n') {
                 text.pop();
             }
+        }
+        if layout.lone_cr {
+            // same length, so no span moves; never right before a '\n' (that would read as CRLF)
+            let mut b = std::mem::take(&mut text).into_bytes();
+            for i in 0..b.len() {
+                if b[i] == b'\n' && b.get(i + 1) != Some(&b'\n') && rng.chance(1, 3) {
+                    b[i] = b'\r';
+                }
+            }
+            text = String::from_utf8(b).unwrap();
         }
         if layout.crlf.get(mi).copied().unwrap_or(false) {
             // Convert LF to CRLF and shift spans accordingly.
